@@ -1276,6 +1276,8 @@ def _normalize_split_every(split_every, axis):
     split_every = split_every or 4
     if isinstance(split_every, dict):
         split_every = {k: split_every.get(k, 2) for k in axis}
+        if any(v < 2 for v in split_every.values()):
+            raise ValueError("split_every values must be at least 2")
     elif isinstance(split_every, Integral):
         n = builtins.max(int(split_every ** (1 / (len(axis) or 1))), 2)
         split_every = dict.fromkeys(axis, n)
